@@ -5,7 +5,7 @@ EXPLANATION = (
     "D1 pairing discipline: a '{' may be paired with `the first '}' after it` (find('}') on the remainder) only if it is the RIGHT-MOST '{' (rfind, or last()/next_back() of match_indices, or the first item of a reversed iterator that is not advanced again); "
     "D2 `return true` is reached only through Pattern::matches on a pattern compiled from format!(prefix, alternative, suffix) with prefix = text before the '{', alternative = an item of split(',') over the text strictly between the braces, suffix = text after the '}'; the fall-through result is false; "
     "D3 an expansion that does not compile is skipped (matched on Ok, never unwrapped); "
-    "D4 every path of Pattern::new that constructs an Alternate pattern passed the balance loop: '{' pushes, '}' pops or fails with Err(Alternate), a non-empty stack at the end fails")
+    "D4 every path of Pattern::new that constructs an Alternate pattern passed the balance loop: '{' pushes, '}' pops or fails with Err(Alternate), a non-empty stack at the end fails; D1-D3 are decided on the normal form ANY alternative of X.split(','): Pattern::new(format!(first, alt, last)) is Ok and matches(pkg), with the pieces normalised by substr (split_at, slicing, split_once, rsplit_once alike) and the quantifier as a for-loop or .any(..); D4 on a depth normal form (a stack pushed/popped or a counter +1/-1 guarded by != 0, inline or in a helper predicate, dispatch by contains('{')||contains('}') or contains(['{','}']))")
 NOT_DECIDED = [
     "completeness of the expansion beyond what D1+D2 imply (the recursion through Pattern::new/matches expands the remaining groups)",
     "semantics of str::split(',') / find / rfind (std)",
